@@ -60,3 +60,40 @@ func c13CleanIsLast(c *Ctx, pkgs []*packages.Package) {
 		c.Fail(rule, "anchor", token.NoPos, "no function calling filepath.Clean found in the path packages")
 	}
 }
+
+// c13NormalizeAlwaysCleans (CLEAN-ALWAYS; C13 and C14, after round-6 seed C14-p): "equivalent spellings of a path
+// denote the same object" because every spelling goes through filepath.Clean. Normalize returns nothing but the result
+// of the cleaning call: a fast path that hands the argument back when it "looks clean" is as good as its predicate, and
+// a predicate that forgets one spelling (a trailing "/.") makes `a/b/.` a key nothing is stored under.
+func c13NormalizeAlwaysCleans(c *Ctx) {
+	const rule = "CLEAN-ALWAYS"
+	c.Rule(rule, "normalpath.Normalize returns only what filepath.Clean produced, for every spelling", 1)
+	p := c.P
+	pk := p.Pkg("private/pkg/normalpath")
+	if pk == nil {
+		c.Fail(rule, "anchor", token.NoPos, "normalpath not found")
+		return
+	}
+	n := 0
+	for _, sf := range p.SSAFuncsOf([]*packages.Package{pk}) {
+		if sf.Name() != "Normalize" || sf.Signature.Recv() != nil {
+			continue
+		}
+		k := 0
+		for _, r := range returnsOf(sf) {
+			if len(r.Results) != 1 {
+				continue
+			}
+			n++
+			k++
+			ok := dependsOnCall(r.Results[0], func(cc *ssa.CallCommon) bool {
+				o := staticCalleeObj(cc)
+				return o != nil && o.Pkg() != nil && (o.Pkg().Path() == "path/filepath" || o.Pkg().Path() == "path") && o.Name() == "Clean"
+			})
+			c.Ob(rule, fmt.Sprintf("normalpath.Normalize/return#%d", k), r.Pos(), ok, true, "the returned path is the result of Clean: %v", ok)
+		}
+	}
+	if n == 0 {
+		c.Fail(rule, "anchor", token.NoPos, "normalpath.Normalize not found")
+	}
+}
